@@ -1,6 +1,7 @@
 package sim
 
 import (
+	"hash/fnv"
 	"os"
 	"fmt"
 	"sort"
@@ -116,6 +117,10 @@ type World struct {
 
 	detselPerms int
 	reads       int
+
+	// state of the "prio" policy
+	prioDemoted map[string]int
+	prioChange  map[int]bool
 
 	// onFailWrite is called (E5) right before an injected write error is returned.
 	onFailWrite func()
@@ -283,9 +288,55 @@ func (w *World) policyPick(n int, labels []string) int {
 			return int(r % uint64(n))
 		}
 		return ok[int(r%uint64(len(ok)))]
+	case "prio":
+		return w.prioPick(n, labels)
 	default:
 		return w.sched.Intn(n)
 	}
+}
+
+// prioPick is a priority schedule in the spirit of PCT (Burckhardt et al., ASPLOS 2010)
+// over operation labels instead of threads: every label has a fixed pseudo-random
+// priority (a function of SchedSeed and the label), the parked operation with the
+// highest priority always goes first, and at Policy.Changes pseudo-random steps of the
+// run the operation that would go first is demoted below everything else for the rest
+// of the run. A bug that needs d particular orderings is reached with probability
+// polynomial in 1/steps instead of exponentially small under uniform picks; in
+// particular one goroutine can be held at a scheduling point while many others pass.
+func (w *World) prioPick(n int, labels []string) int {
+	w.sched.Uint64() // one draw per step, like every other policy
+	if w.prioDemoted == nil {
+		w.prioDemoted = map[string]int{}
+		w.prioChange = map[int]bool{}
+		r := NewRng(Mix(w.Spec.SchedSeed, 0x9c7))
+		horizon := Pick(r, []int{40, 120, 400, 1200})
+		for i := 0; i < w.Spec.Policy.Changes; i++ {
+			w.prioChange[r.Intn(horizon)] = true
+		}
+	}
+	prio := func(l string) uint64 {
+		if k, ok := w.prioDemoted[l]; ok {
+			return uint64(1 << 20) - uint64(k) // later demotions rank lower
+		}
+		h := fnv.New64a()
+		h.Write([]byte(l))
+		return Mix(w.Spec.SchedSeed, h.Sum64(), 0x9c8) | (1 << 40)
+	}
+	best := func() int {
+		b := 0
+		for i := 1; i < n; i++ {
+			if prio(labels[i]) > prio(labels[b]) {
+				b = i
+			}
+		}
+		return b
+	}
+	b := best()
+	if w.prioChange[len(w.decisions)] && n > 1 {
+		w.prioDemoted[labels[b]] = len(w.prioDemoted) + 1
+		b = best()
+	}
+	return b
 }
 
 // schedulerLoop is the only place where a parked operation is released.
